@@ -27,7 +27,7 @@ def norm_event(e):
 
 
 def trace_cfg(corrupt_mode, reader_deletes, allow_delete_fresh, readers=("r1", "r2", "r3", "fin"), nwriters=2,
-              init_img=1):
+              init_img=1, reader_restores=True):
     return """SPECIFICATION TraceSpec
 CONSTANTS
   Readers = {%s}
@@ -38,17 +38,19 @@ CONSTANTS
   InitImg = %d
   CorruptMode = "%s"
   ReaderDeletes = %s
+  ReaderRestores = %s
   AllowDeleteFresh = %s
   ReaderCrash = TRUE
 CONSTRAINT HighWater
 POSTCONDITION TraceAccepted
 CHECK_DEADLOCK FALSE
 """ % (", ".join('"%s"' % r for r in readers), nwriters, init_img, corrupt_mode,
-       "TRUE" if reader_deletes else "FALSE", "TRUE" if allow_delete_fresh else "FALSE")
+       "TRUE" if reader_deletes else "FALSE", "TRUE" if reader_restores else "FALSE",
+       "TRUE" if allow_delete_fresh else "FALSE")
 
 
 def mc_cfg(readers, nwriters, layouts, corrupt_mode, reader_deletes, allow_delete_fresh, reader_crash=True,
-           emit=False, invariants=("TypeOK", "ReadIsOldOrNew"), max_crash=1):
+           emit=False, invariants=("TypeOK", "ReadIsOldOrNew"), max_crash=1, reader_restores=True):
     s = """SPECIFICATION Spec
 CONSTANTS
   Readers = {%s}
@@ -59,11 +61,13 @@ CONSTANTS
   InitImg = 1
   CorruptMode = "%s"
   ReaderDeletes = %s
+  ReaderRestores = %s
   AllowDeleteFresh = %s
   ReaderCrash = %s
 CHECK_DEADLOCK FALSE
 """ % (", ".join('"%s"' % r for r in readers), nwriters, layouts, max_crash, corrupt_mode,
-       "TRUE" if reader_deletes else "FALSE", "TRUE" if allow_delete_fresh else "FALSE",
+       "TRUE" if reader_deletes else "FALSE", "TRUE" if reader_restores else "FALSE",
+       "TRUE" if allow_delete_fresh else "FALSE",
        "TRUE" if reader_crash else "FALSE")
     inv = list(invariants)
     if emit:
@@ -87,7 +91,8 @@ def probe(c, binp):
     if gates != "pre_read post_read pre_lock pre_read post_read pre_write post_write pre_unlock done".split():
         # the gate sequence of an uncontended update is what the model's control points are mapped to
         vlib.log("note: writer gate sequence differs from the modelled one:", gates)
-    return dict(corrupt_mode="serve" if serves else "report", reader_deletes=deletes, raw=p)
+    return dict(corrupt_mode="serve" if serves else "report", reader_deletes=deletes,
+                reader_restores=bool(p["lookup_restores_block"]), raw=p)
 
 
 # ------------------------------------------------------------------------------------------------
